@@ -111,7 +111,8 @@ ChainExp(ts, m) ==
        [name |-> "r3", category |-> "C", cutoff |-> Scale(3, m[1], m[2]), nbhd |-> Scale(1, m[3], m[4]), superiors |-> {"r1", "r2"}, ast |-> ts[3], ext |-> NoNode] >>
 ChainCases ==
     {Case("chain", ChainFiles(<<Pool[q[1]], Pool[q[2]], Pool[q[3]]>>, split, explicit), m, sep, "denote",
-          q = <<2, 3, 4>> /\ split = 0 /\ m = UnitMult /\ sep = 0 /\ ~explicit, <<>>, ChainExp(<<Pool[q[1]], Pool[q[2]], Pool[q[3]]>>, m)) :
+          (q = <<2, 3, 4>> /\ split = 0 /\ m = UnitMult /\ sep = 0 /\ ~explicit)
+          \/ (BaseMode = 1 /\ q = <<1, 2, 3>> /\ split \in {1, 3} /\ m = UnitMult /\ sep = 0 /\ explicit), <<>>, ChainExp(<<Pool[q[1]], Pool[q[2]], Pool[q[3]]>>, m)) :
        q \in {<<1, 2, 3>>, <<2, 3, 4>>, <<5, 1, 2>>, <<4, 5, 5>>}, split \in 0..3, m \in Mults, sep \in {0, 4}, explicit \in BOOLEAN}
 
 (* aliases: body tokens spliced where the name is used; the twin has them inlined *)
@@ -132,7 +133,7 @@ AliasCases ==
           rule(c) == R("r1", "C", 10, 20, <<>>, c, <<>>, <<>>)
           other == R("r0", "D", 2, 3, <<>>, <<"d">>, <<>>, <<>>)
           inl == Inline(use, "x1", body)
-      IN  { Case("alias", << Define("x1", body) \o rule(use) >>, UnitMult, 0, "denote", bi = 2 /\ ui = 1, << rule(inl) >>, <<>>),
+      IN  { Case("alias", << Define("x1", body) \o rule(use) >>, UnitMult, 0, "denote", (bi = 2 /\ ui = 1) \/ (BaseMode = 1 /\ ui \in {1, 5} /\ bi \in {1, 3, 4, 7, 9}), << rule(inl) >>, <<>>),
             Case("alias", << Define("x1", body), rule(use) >>, UnitMult, 4, "denote", FALSE, << rule(inl) >>, <<>>),
             Case("alias", << other \o Define("x1", body) \o rule(use) >>, UnitMult, 1, "denote", FALSE, << other \o rule(inl) >>, <<>>),
             (* nested: x2 is defined through x1 *)
